@@ -105,7 +105,21 @@ def run(ctx):
             for si_ in range(nsent):
                 n = rng.randint(1, 5) if not (long_one and si_ == 0) else rng.choice([251, 260, 300])
                 doc.append([Token.of_word(rng.choice(vocab)) for _ in range(n)])
-                scores.append(ScoringResult(numpy.array([[rng.randint(-50, 0) for _ in range(T)] for _ in range(n)], dtype=numpy.float32),
+                tag = numpy.array([[rng.randint(-50, 0) for _ in range(T)] for _ in range(n)], dtype=numpy.float32)
+                # score matrices as callers hold them: fresh arrays, column slices / strided views of wider arrays,
+                # column-major arrays (a transposed batch) — all are float32 matrices of the right shape
+                layout = rng.choice(['c', 'c', 'slice', 'stride', 'fortran'])
+                if layout == 'slice':
+                    wide = numpy.full((n, T + 3), 7.0, dtype=numpy.float32)
+                    wide[:, 2:2 + T] = tag
+                    tag = wide[:, 2:2 + T]
+                elif layout == 'stride':
+                    wide = numpy.full((n, 2 * T), 7.0, dtype=numpy.float32)
+                    wide[:, ::2] = tag
+                    tag = wide[:, ::2]
+                elif layout == 'fortran':
+                    tag = numpy.asfortranarray(tag)
+                scores.append(ScoringResult(tag,
                                             numpy.array([[rng.randint(-50, 0) for _ in range(n + 1)] for _ in range(n)], dtype=numpy.float32)))
             before_tag = [s.tag_scores.copy() for s in scores]
             before_dep = [s.dep_scores.copy() for s in scores]
